@@ -513,6 +513,76 @@ def _propagate_temps(fn, known_locals: set) -> int:
     return count
 
 
+PURE_BUILTINS = {'any', 'all', 'callable', 'isinstance', 'len', 'bool'}
+
+
+def _is_pure(e: ast.AST) -> bool:
+    """Effect-free and repeatable: names, constants, attribute reads, identity comparisons, boolean structure, conditional expressions, and the builtins
+    any/all/callable/isinstance/len/bool over such expressions (incl. one generator expression over a name)."""
+    if isinstance(e, (ast.Name, ast.Constant)):
+        return True
+    if isinstance(e, ast.Attribute):
+        return _is_pure(e.value)
+    if isinstance(e, ast.UnaryOp) and isinstance(e.op, ast.Not):
+        return _is_pure(e.operand)
+    if isinstance(e, ast.BoolOp):
+        return all(_is_pure(v) for v in e.values)
+    if isinstance(e, ast.IfExp):
+        return _is_pure(e.test) and _is_pure(e.body) and _is_pure(e.orelse)
+    if isinstance(e, ast.Compare):
+        return all(isinstance(o, (ast.Is, ast.IsNot)) for o in e.ops) and _is_pure(e.left) and all(_is_pure(c) for c in e.comparators)
+    if isinstance(e, ast.GeneratorExp):
+        return len(e.generators) == 1 and isinstance(e.generators[0].iter, ast.Name) and not e.generators[0].is_async \
+            and all(_is_pure(c) for c in e.generators[0].ifs) and _is_pure(e.elt)
+    if isinstance(e, ast.Call) and isinstance(e.func, ast.Name) and e.func.id in PURE_BUILTINS and not e.keywords:
+        return all(_is_pure(a) for a in e.args)
+    return False
+
+
+def _propagate_pure(fn, known_locals: set) -> int:
+    """A NEW local bound once, in the function's top-level block, to a pure expression over names that are never rebound and attributes that are never
+    stored in the function, is substituted at all its (later) uses: `criterion = handler.value`, `any_present = any(v is not absent for v in values)`."""
+    count = 0
+    stores: dict[str, int] = {}
+    for n in ast.walk(fn):
+        if isinstance(n, ast.Name) and isinstance(n.ctx, ast.Store):
+            stores[n.id] = stores.get(n.id, 0) + 1
+        elif isinstance(n, ast.arg):
+            stores[n.arg] = stores.get(n.arg, 0) + 1
+    attr_stores = {n.attr for n in ast.walk(fn) if isinstance(n, ast.Attribute) and isinstance(n.ctx, (ast.Store, ast.Del))}
+    nested_free = set()
+    for n in ast.walk(fn):
+        if isinstance(n, (ast.FunctionDef, ast.AsyncFunctionDef, ast.Lambda)) and n is not fn:
+            nested_free |= _names(n)
+    body = fn.body
+    i = 0
+    while i < len(body):
+        s = body[i]
+        tgt = None
+        if isinstance(s, ast.Assign) and len(s.targets) == 1 and isinstance(s.targets[0], ast.Name):
+            tgt, val = s.targets[0].id, s.value
+        elif isinstance(s, ast.AnnAssign) and isinstance(s.target, ast.Name) and s.value is not None:
+            tgt, val = s.target.id, s.value
+        if tgt and tgt not in known_locals and stores.get(tgt) == 1 and tgt not in nested_free and not isinstance(val, ast.Constant) and _is_pure(val):
+            comp_vars = {n.id for g in ast.walk(val) if isinstance(g, ast.comprehension) for n in ast.walk(g.target) if isinstance(n, ast.Name)}
+            free = {n.id for n in ast.walk(val) if isinstance(n, ast.Name)} - comp_vars
+            attrs = {n.attr for n in ast.walk(val) if isinstance(n, ast.Attribute)}
+            later = body[i + 1:]
+            used_before = any(tgt in _names(x) for x in body[:i])
+            loads = sum(1 for x in later for n in ast.walk(x) if isinstance(n, ast.Name) and n.id == tgt and isinstance(n.ctx, ast.Load))
+            rebound_later = {n.id for x in later for n in ast.walk(x) if isinstance(n, ast.Name) and isinstance(n.ctx, (ast.Store, ast.Del))}
+            if not (free & rebound_later) and not (attrs & attr_stores) and not used_before and 1 <= loads <= 8 and sum(1 for _ in ast.walk(val)) <= 40:
+                sub = _Subst({tgt: val})
+                for k in range(i + 1, len(body)):
+                    body[k] = sub.visit(body[k])
+                    ast.fix_missing_locations(body[k])
+                del body[i]
+                count += 1
+                continue
+        i += 1
+    return count
+
+
 def _evaluated_first(exprs: list, use: ast.Name, val: ast.AST) -> bool:
     """Substituting `val` at `use` keeps the order of effects: `val` is effect-free (no call), or no call/await is evaluated before `use`
     in the statement and the use is not under a short-circuit / conditional (so it is evaluated exactly once, unconditionally)."""
@@ -877,6 +947,7 @@ def canonicalise(modname: str, tree: ast.Module) -> dict:
         kl = set(known['locals'])
         if sum(1 for n in ast.walk(fn) if isinstance(n, ast.If)) > known.get('if_stmts', 0):
             stats['temps'] += _fold_if_assign(fn)
+        stats['temps'] += _propagate_pure(fn, kl)
         for _ in range(4):
             n = _propagate_temps(fn, kl)
             stats['temps'] += n
